@@ -59,6 +59,8 @@ var (
 	colList, lqlList []string
 	colParser        = date.NewDefaultParser()
 	classes          = map[string]string{} // class key "<list>:<i>:<by>" -> finding id
+	fixedClasses     = map[string]string{} // class key -> id of the FIXED finding it belonged to (a deviation there = the defect is back)
+	fixedDoc         = map[string][]string{}
 	genTable         string
 	genSeeds         int
 	collected        = map[string]*classRec{}
@@ -436,9 +438,17 @@ func canonModel(ans string) string {
 	return ans
 }
 
+// indexIn finds a format in a list. A recorded witness may name format 2 with the literal MST (the list before /repo
+// bf37a58) or with the term ZZZ (after): both denote the same layout, so they are the same list entry.
 func indexIn(list []string, f string) int {
 	for i, x := range list {
 		if x == f {
+			return i
+		}
+	}
+	n := strings.Replace(f, "MST", "ZZZ", -1)
+	for i, x := range list {
+		if strings.Replace(x, "MST", "ZZZ", -1) == n {
 			return i
 		}
 	}
@@ -602,8 +612,17 @@ type findingEntry struct {
 func loadClasses() {
 	path := filepath.Join(args.Corpus, "..", "..", "known_findings.d", "C20.json")
 	var doc struct {
-		Findings []findingEntry `json:"findings"`
+		Findings     []findingEntry      `json:"findings"`
+		FixedClasses map[string][]string `json:"fixed_classes"`
 	}
+	defer func() {
+		for id, keys := range doc.FixedClasses {
+			fixedDoc[id] = keys
+			for _, k := range keys {
+				fixedClasses[k] = id
+			}
+		}
+	}()
 	if err := vh.ReadJSON(path, &doc); err != nil {
 		res.Note("no class table (%v): every deviation is unattributed", err)
 		return
@@ -632,6 +651,9 @@ func judge(section string, k kase, listIdx int, impl, modelC, want string, byIdx
 	fid := ""
 	if eq {
 		fid = classes[key]
+	}
+	if fid == "" {
+		fid = fixedClasses[key] // not an open finding: the orchestrator reports "the FIXED finding is back"
 	}
 	if genTable != "" && eq {
 		collMu.Lock()
@@ -1594,16 +1616,19 @@ func replayOwn(k kase, sec *vh.Section) {
 	}
 	k.Text = text
 	in := k.input(text)
+	// the format under test is the list's CURRENT entry at the witness' position (see indexIn)
+	li := indexIn(colList, k.Format)
+	if li >= 0 {
+		k.Format = colList[li]
+	} else if li = indexIn(lqlList, k.Format); li >= 0 {
+		k.Format = lqlList[li]
+	}
 	im := implOne(k.Format, in)
 	out := askModel([]string{"one " + vh.HxS(k.Format) + " " + nowStr(td) + " " + vh.HxS(in)})
 	mc := canonModel(out[0])
 	res.Eval(sec, k.Format+"|"+in)
 	if im != mc {
 		res.Mismatch(vh.Mismatch{Section: sec.Name, Function: "date.NewParser(fmt).Parse", Input: k, Impl: im, Model: mc})
-	}
-	li := indexIn(colList, k.Format)
-	if li < 0 {
-		li = indexIn(lqlList, k.Format)
 	}
 	by := "own"
 	if !strings.HasPrefix(mc, "ok") {
@@ -1669,9 +1694,11 @@ func writeTable(dir string) {
 		return a.By < b.By
 	})
 	var out struct {
-		Comment  string         `json:"comment"`
-		Findings []findingEntry `json:"findings"`
+		Comment      string              `json:"comment"`
+		Findings     []findingEntry      `json:"findings"`
+		FixedClasses map[string][]string `json:"fixed_classes,omitempty"`
 	}
+	out.FixedClasses = fixedDoc // carried over from the committed file
 	out.Comment = "C20 known-finding classes, computed ONCE from the tree at the time of writing by `c20 -gentable` (thorough sweeps, several seeds) and committed; never regenerated at run time. One class per (list, format index, what claims the text). A deviation whose (list, format, claiming format) is not listed here is a VIOLATION."
 	os.MkdirAll(filepath.Join(dir, "corpus"), 0755)
 	for _, key := range keys {
